@@ -711,6 +711,14 @@ impl Interface {
 
         let mut result = PollResult::None;
         for item in sockets.items_mut() {
+            // A fragmented packet is still being sent out of the (single) fragmentation
+            // buffer. Sockets have to wait: a packet dequeued now that needs fragmentation as
+            // well would overwrite the buffer and the rest of the first packet would be lost.
+            #[cfg(feature = "_proto-fragmentation")]
+            if !self.fragmenter.is_empty() && !self.fragmenter.finished() {
+                break;
+            }
+
             if !item
                 .meta
                 .egress_permitted(self.inner.now, |ip_addr| self.inner.has_neighbor(&ip_addr))
@@ -1295,6 +1303,13 @@ impl InterfaceInner {
                                 "Fragmentation buffer is too small, at least {} needed. Dropping",
                                 total_ip_len
                             );
+                            return Ok(());
+                        }
+
+                        // Only replies generated on the ingress path get here while another
+                        // packet is still being fragmented; they cannot be queued.
+                        if !frag.is_empty() && !frag.finished() {
+                            net_debug!("Fragmentation buffer is in use. Dropping");
                             return Ok(());
                         }
 
